@@ -22,7 +22,7 @@ ASSUMPTIONS = ['schedules: every interleaving of 2-3 threads at synchronisation 
                'request thread: one request out of activate/deactivate x {global, m, m:_a}, *IDN?, disconnect on a connection that is '
                'inactive or active in a symbolic scope; driver threads: one or two assignments of distinct values to m.a / m.b']
 REQUIRED_TAGS = ['race/activate', 'race/deactivate', 'race/preempted']
-LIMITS = {'quick': {'max_paths': 40000, 'max_s': 200}, 'thorough': {'max_paths': 400000, 'max_s': 900}}
+LIMITS = {'quick': {'max_paths': 40000, 'max_s': 200}, 'thorough': {'max_paths': 400000, 'max_s': 600}}
 
 SCOPES = [None, 'm', 'm:_a']
 REQS = ['activate', 'deactivate', 'idn', 'disconnect']
@@ -41,7 +41,7 @@ def cases(tier):
                     out.append({'fn': 'run_race', 'id': f'race/{req}-{scope}/pre-{pre}/drv-{drivers}',
                                 'params': {'req': req, 'scope': scope, 'pre': pre, 'drivers': drivers,
                                            # (three threads with 3 pre-emptions: about an hour for the 29 scenarios; kept at 2)
-                                           'preempt': 3 if tier == 'thorough' and drivers != 'a+a' else 2}})
+                                           'preempt': 3 if tier == 'thorough' and drivers in ('a', 'ab') else 2}})
     return out
 
 
